@@ -125,6 +125,10 @@ def supplied_grid(kind, q, a, b, rng):
     if kind != "pinhole" or rng.random() < 0.5:
         gl = max(gl, q[0] * rng.choice([0.001, 0.02, 0.1]))
     gh = hi + pad
+    # a caller may also hand over a grid that stops at the last data point (the library's own tests
+    # pass q_calc = q): the weights must still be a normalised non-negative average
+    if rng.random() < 0.25:
+        gh = max(q)
     if style == "log" and gl > 0:
         g = [gl * (gh / gl) ** (i / (npts - 1.0)) for i in range(npts)]
     else:
@@ -463,8 +467,9 @@ def corrupted_trace_selftest(chk, events):
     e = pick(lambda e: e["ev"] == "Res1D" and e["cls"] == "Slit1D" and not e["supplied"] and len(e["q"]) >= 3
              and any(float(x) > 0 for x in e["W"]))
     if e is not None:
-        m = max(float(x) for x in e["qcalc"])
-        e["qcalc"] = [x for x in e["qcalc"] if float(x) < 0.5 * m] or e["qcalc"][:1]
+        # keep only the calculation points below the first data point: no window can be covered
+        m = min(float(x) for x in e["q"])
+        e["qcalc"] = [x for x in e["qcalc"] if float(x) < m] or e["qcalc"][:1]
         e["haverows"] = False
         e["rows"], e["off"], e["probes"] = [], [], []
         cases.append((e, "covers-high"))
